@@ -146,6 +146,16 @@ Proof.
       exact (spec_list_bad _ avl false Hok (Hn Hd) Es).
 Qed.
 
+(** the harness (and [facts_of_data]) write the target t and the attribute name a in front of the
+    argument; the code writes the target / the local name of the node.  It makes no difference: *)
+Theorem pi_data_any_target : forall tg s, forallb NC tg = true -> is_xml_ci tg = false -> pi_data_of tg s = pi_data_fact s.
+Proof.
+  intros tg s H1 H2. rewrite pi_data_fact_spec. apply pi_data_of_spec. apply pi_target_ok_iff. split; assumption.
+Qed.
+
+Theorem value_any_attribute_name : forall n s, is_NCName n = true -> value_of_name n s = value_fact s.
+Proof. exact value_of_name_fact. Qed.
+
 (** lexical soundness of the data facts (C15) *)
 Lemma av_items_ok q : forall avl b, av_ok q b avl -> Forall item_no_D04 avl -> forallb vitem_ok (map vitem_of avl) = true.
 Proof.
